@@ -25,7 +25,7 @@ BUDGET = {'quick': 240, 'thorough': 3000}
 
 
 def shards(tier):
-    return e1.std_shards(tier, with_p=True, with_big=True)
+    return e1.std_shards(tier, with_p=True, with_big=True, with_hist=True)
 
 
 CALLBACKS = [
@@ -114,6 +114,13 @@ def check_case(case, ctr):
             except Failing.Boom:
                 pass
         if cb is None and cbp is None:
+            scratch = lat.graphviz()       # a returned drawing is the caller's to extend
+            try:
+                scratch.node('\x00junk')
+                scratch.edge('\x00junk', 'c0')
+                scratch.body.append('\tjunk -> junk')
+            except Exception:
+                pass
             dot = lat.graphviz()
         elif cbname == 'tag/comma':
             # documented parameter order: filename, directory, render, view, then the callbacks
